@@ -266,6 +266,7 @@ export class TypeGen {
     for (let i = 0; i < n; i++) items.push(this.type(depth - 1));
     const t = A.tuple(items, r.chance(0.3) ? this.type(depth - 1) : null);
     if (r.chance(0.15)) t.ro = true;
+    if (r.chance(0.2)) t.labels = true; // [m0: A, m1: B, ...rest: C[]]
     return t;
   }
   unionType(depth) {
@@ -577,7 +578,20 @@ export class TypeGen {
         const n = 1 + r.below(4);
         const members = [];
         for (let i = 0; i < n; i++) members.push({ name: "M" + i, v: str ? r.pick(["a", "b", "c", "d", "x y", "A"]) + i : i * (r.chance(0.3) ? 10 : 1) });
-        return tryAdd({ d: "enum", name: this.fresh("E"), members });
+        const en = this.fresh("E");
+        const added = tryAdd({ d: "enum", name: en, members });
+        // the enum as a value: typeof E is the object of its members, keyof typeof E their names
+        if (added && f.typeofEnum !== false && r.chance(0.3)) {
+          const tq = { k: "typeof", name: en, path: [], ofEnum: true };
+          const t = r.wpick([
+            [3, () => ({ k: "keyof", t: tq })],
+            [2, () => tq],
+            [2, () => ({ k: "index", obj: tq, idx: { k: "keyof", t: tq } })],
+            [1, () => ({ k: "typeof", name: en, path: [members[0].name], ofEnum: true })],
+          ])();
+          tryAdd({ d: "alias", name: this.fresh("TE"), params: [], t });
+        }
+        return added;
       }
       case "generic": {
         const name = this.fresh("G");
